@@ -224,14 +224,14 @@ int antispoof_ingress(struct __sk_buff *skb) {
 		__u32 src_ip = ip->saddr;
 		int allowed = 0;
 
-		if (binding && binding->ipv4_valid) {
+		if (mode == ANTISPOOF_LOOSE) {
+			/* Loose mode: check if in any allowed range (with or without a binding) */
+			allowed = ip_in_allowed_range(src_ip);
+		} else if (binding && binding->ipv4_valid) {
 			/* Strict mode: exact match required */
 			if (mode == ANTISPOOF_STRICT || mode == ANTISPOOF_LOG_ONLY) {
 				allowed = (src_ip == binding->ipv4_addr);
 			}
-		} else if (mode == ANTISPOOF_LOOSE) {
-			/* Loose mode: check if in any allowed range */
-			allowed = ip_in_allowed_range(src_ip);
 		}
 
 		if (!allowed) {
